@@ -14,7 +14,7 @@ Theorem wraps_same_signature f : wf_func f ->
     b_inv g = inv_of_params (sg_params (func_sig f)).
 Proof.
   intro WF. pose proof (update_wrapper_refines f [] [] WF (Forall_nil _)) as R.
-  unfold spec_wraps in R. cbn [spec_injects spec_expects] in R.
+  unfold spec_wraps, spec_wraps_opt in R. cbn [spec_injects_opt spec_expects] in R.
   match type of R with match ?u with _ => _ end => destruct u as [g|e] eqn:E end; [|exfalso; exact R].
   exists g. split; [first [exact E | reflexivity]|].
   destruct R as [S [N [Dc [M [A [W I]]]]]].
@@ -122,9 +122,9 @@ Theorem spec_inject_exact n s s' :
   sg_ret s' = sg_ret s /\
   sg_params s' = filter (fun p => negb (removable n p)) (sg_params s).
 Proof.
-  unfold spec_inject. destruct (existsb (removable n) (sg_params s)) eqn:E.
+  unfold spec_inject, spec_inject_opt. destruct (existsb (removable n) (sg_params s)) eqn:E.
   - intro H. inversion H; subst. split; reflexivity.
-  - destruct (has_varkw s); [|discriminate]. intro H. inversion H; subst. split; [reflexivity|].
+  - cbn [andb]. destruct (has_varkw s); [|discriminate]. intro H. inversion H; subst. split; [reflexivity|].
     symmetry. apply filter_true. intros p Hp. rewrite (proj1 (existsb_false_iff _ _) E p Hp). reflexivity.
 Qed.
 
@@ -147,7 +147,7 @@ Corollary inject_one f n s' : wf_func f -> spec_inject n (func_sig f) = Ok s' ->
             sg_params s' = filter (fun p => negb (removable n p)) (sg_params (func_sig f)).
 Proof.
   intros WF SI. pose proof (update_wrapper_refines f [n] [] WF (Forall_nil _)) as R.
-  unfold spec_wraps in R. cbn [spec_injects spec_expects] in R. rewrite SI in R.
+  unfold spec_wraps, spec_wraps_opt in R. cbn [spec_injects_opt spec_expects] in R. unfold spec_inject in SI. rewrite SI in R.
   match type of R with match ?u with _ => _ end => destruct u as [g|e] eqn:E end; [|exfalso; exact R].
   exists g. split; [first [exact E | reflexivity]|]. destruct R as [S _]. split; [exact S|].
   apply spec_inject_exact. exact SI.
@@ -160,7 +160,7 @@ Proof.
   intros WF Hn SE.
   assert (NZ : Forall (fun nd : name * option value => fst nd <> 0) [(n, d)]) by (constructor; [exact Hn | constructor]).
   pose proof (update_wrapper_refines f [] [(n, d)] WF NZ) as R.
-  unfold spec_wraps in R. cbn [spec_injects spec_expects] in R. rewrite SE in R.
+  unfold spec_wraps, spec_wraps_opt in R. cbn [spec_injects_opt spec_expects] in R. rewrite SE in R.
   match type of R with match ?u with _ => _ end => destruct u as [g|e] eqn:E end; [|exfalso; exact R].
   exists g. split; [first [exact E | reflexivity]|]. destruct R as [S _]. split; [exact S|].
   apply spec_expect_exact. exact SE.
@@ -174,7 +174,7 @@ Proof.
   intros WF Hn HD.
   assert (NZ : Forall (fun nd : name * option value => fst nd <> 0) [(n, None)]) by (constructor; [exact Hn | constructor]).
   pose proof (update_wrapper_refines f [] [(n, None)] WF NZ) as R.
-  unfold spec_wraps in R. cbn [spec_injects spec_expects] in R.
+  unfold spec_wraps, spec_wraps_opt in R. cbn [spec_injects_opt spec_expects] in R.
   assert (SE : exists e, spec_expect (n, None) (func_sig f) = Raise e).
   { unfold spec_expect. destruct (existsb (is_named n) (sg_params (func_sig f))); [eexists; reflexivity|].
     rewrite HD. eexists. reflexivity. }
